@@ -22,6 +22,22 @@ def OMap.erase (cmp : K → K → Int) (m : List (K × V)) (k : K) : List (K × 
 
 def OMap.get (m : List (K × V)) (k : K) : Option V := (m.find? (fun p => decide (p.1 = k))).map (·.2)
 
+/-! Weak-order comparators (`WeakCmp`): a key addresses the binding whose stored key is
+equivalent to it (`cmp k' k = 0`); replacing a value keeps the stored key. -/
+
+/-- The stored key equivalent to `k`. -/
+def OMap.keyW (cmp : K → K → Int) (m : List (K × V)) (k : K) : Option K :=
+  (m.find? (fun p => cmp p.1 k == 0)).map (·.1)
+
+/-- The value of the binding whose key is equivalent to `k`. -/
+def OMap.getW (cmp : K → K → Int) (m : List (K × V)) (k : K) : Option V :=
+  (m.find? (fun p => cmp p.1 k == 0)).map (·.2)
+
+/-- Insert, or replace the value of the equivalent binding (its stored key is kept). -/
+def OMap.setW (cmp : K → K → Int) (m : List (K × V)) (k : K) (v : V) : List (K × V) :=
+  m.filter (fun p => decide (cmp p.1 k < 0)) ++ ((OMap.keyW cmp m k).getD k, v) ::
+    m.filter (fun p => decide (cmp k p.1 < 0))
+
 /-- The bindings with key `≥ start`. -/
 def OMap.from (cmp : K → K → Int) (m : List (K × V)) (start : K) : List (K × V) :=
   m.filter (fun p => !decide (cmp p.1 start < 0))
@@ -174,24 +190,50 @@ theorem Inv.init (cmp : K → K → Int) : Inv cmp (SL.init : SL K V) := by
   · intro i _ hi
     simp [SL.init, hi]
 
+theorem findSome?_of_all {α β : Type} {f : α → Option β} {b : β} :
+    ∀ {l : List α}, (∀ a ∈ l, f a = none ∨ f a = some b) → (∃ a ∈ l, f a = some b) →
+      l.findSome? f = some b := by
+  intro l
+  induction l with
+  | nil => intro _ ⟨a, ha, _⟩; cases ha
+  | cons x xs ih =>
+    intro hall ⟨a, ha, hfa⟩
+    rw [List.findSome?_cons]
+    rcases hall x (by simp) with hx | hx
+    · rw [hx]
+      simp only []
+      refine ih (fun a ha => hall a (by simp [ha])) ?_
+      rcases List.mem_cons.mp ha with rfl | ha
+      · rw [hx] at hfa; cases hfa
+      · exact ⟨a, ha, hfa⟩
+    · rw [hx]
+
 /-- What every search needs from the invariant. -/
-theorem Inv.search_prep (h : Inv cmp s) (key : K) :
+theorem Inv.search_prep (hc : WeakCmp cmp) (h : Inv cmp s) (key : K) :
     ∃ ls, s.levelsDown = some ls ∧ Down cmp ls ∧
-      anyHas key ls = decide (key ∈ chain0 s) ∧
+      hitIn cmp key ls = findEq cmp key (chain0 s) ∧
       (ls.map (pred cmp key)).reverse = (s.lv.take s.level).map (pred cmp key) ∧
       descend cmp key ls none = pred cmp key (chain0 s) := by
   obtain ⟨rest, hr⟩ := h.lv_cons
   have hle : s.level ≤ s.lv.length := by rw [h.len32]; exact h.lvl.2
   refine ⟨(s.lv.take s.level).reverse, by simp [SL.levelsDown, hle], h.tower.down _, ?_, ?_, ?_⟩
   · obtain ⟨n, hn⟩ : ∃ n, s.level = n + 1 := ⟨s.level - 1, by have := h.lvl.1; omega⟩
-    rw [Bool.eq_iff_iff]
-    simp only [anyHas, List.any_eq_true, List.mem_reverse, decide_eq_true_eq]
-    constructor
-    · rintro ⟨l, hl, hk⟩
-      exact (h.sub0 l (List.mem_of_mem_take hl)).subset hk
-    · intro hk
-      refine ⟨chain0 s, ?_, hk⟩
-      rw [hr, hn]; simp
+    have hmem : chain0 s ∈ (s.lv.take s.level).reverse := by rw [hr, hn]; simp
+    have hsub : ∀ l ∈ (s.lv.take s.level).reverse, l.Sublist (chain0 s) :=
+      fun l hl => h.sub0 l (List.mem_of_mem_take (List.mem_reverse.mp hl))
+    unfold hitIn
+    cases hf : findEq cmp key (chain0 s) with
+    | none =>
+      rw [List.findSome?_eq_none_iff]
+      intro l hl
+      rw [findEq_sublist hc h.sorted0 (hsub l hl), hf]
+    | some n =>
+      apply findSome?_of_all
+      · intro l hl
+        rw [findEq_sublist hc h.sorted0 (hsub l hl), hf]
+        simp only []
+        by_cases hnl : n ∈ l <;> simp [hnl]
+      · exact ⟨chain0 s, hmem, hf⟩
   · rw [List.map_reverse, List.reverse_reverse]
   · obtain ⟨n, hn⟩ : ∃ n, s.level = n + 1 := ⟨s.level - 1, by have := h.lvl.1; omega⟩
     rw [hr, hn]
